@@ -48,7 +48,7 @@ class EvalMixin(InterpBase):
             return Opaque(("builtin", name))
         if name in self.exc_parents:
             return ClassRef("builtins:" + name, exc_bases=self.exc_parents[name])
-        raise Unsupported(f"unresolved name {name!r} in {fr.module}")
+        raise UnresolvedName(f"unresolved name {name!r} in {fr.module}")
 
     def ev_Tuple(self, node, fr):
         return tuple(self.ev(e, fr) for e in node.elts)
